@@ -49,7 +49,7 @@ def check_C03(pid, tier, seed, verdict):
     res = V.run_trace(pid, "Trace_Wire.tla", "Trace_Wire.cfg", run["trace"])
     verdict.add_trace_result("codec", res, run)
     cnt = res["cnt"]
-    V.log(f"[{pid}] trace: {res['lines']} events, {cnt['scn']} scenarios, {cnt['frames']} frames decoded, "
+    V.log(f"[{pid}] trace: {res['lines']} events, {cnt['scn']} scenarios, {cnt['decode']} decode calls, "
           f"{cnt['encode']} encodes, bad={len(res['bad'])}")
     cov = _cov(mcs, cnt["scn"], cnt["nontrivial"],
                "scenario = one byte stream in one fragmentation fed to the real decoder (TLC-generated abstract "
